@@ -64,7 +64,49 @@ impl TryFrom<&[AST]> for Context {
             context.functions.insert(func.clone());
         });
 
-        context.into_with_primitives()?.into_with_std_lib()
+        let context = context.into_with_primitives()?.into_with_std_lib()?;
+        context.check_inheritance_acyclic()?;
+        Ok(context)
+    }
+}
+
+impl Context {
+    /// Class lookup and `has_parent` recurse through the parents of a class without a cycle
+    /// guard, so a class that is its own ancestor is rejected when the context is built.
+    fn check_inheritance_acyclic(&self) -> TypeResult<()> {
+        let mut errs: Vec<(Position, String)> = vec![];
+        for class in &self.classes {
+            let mut visited: HashSet<&str> = HashSet::new();
+            let mut todo: Vec<&GenericClass> = vec![class];
+            while let Some(current) = todo.pop() {
+                for parent in &current.parents {
+                    let parent_name = parent.name.variant.name.as_str();
+                    if parent_name == class.name.name {
+                        let msg = format!("Class '{}' cannot be its own ancestor", class.name);
+                        errs.push((class.pos, msg));
+                    } else if visited.insert(parent_name) {
+                        if let Some(parent_class) =
+                            self.classes.iter().find(|c| c.name.name == parent_name)
+                        {
+                            todo.push(parent_class);
+                        }
+                    }
+                }
+            }
+        }
+
+        errs.sort_by(|(p1, m1), (p2, m2)| {
+            (p1.start.line, p1.start.pos, m1).cmp(&(p2.start.line, p2.start.pos, m2))
+        });
+        errs.dedup();
+        if errs.is_empty() {
+            Ok(())
+        } else {
+            Err(errs
+                .iter()
+                .map(|(pos, msg)| TypeErr::new(*pos, msg))
+                .collect())
+        }
     }
 }
 
